@@ -376,10 +376,14 @@ pub fn udp_worker(args: &[String]) -> i32 {
     }
     // let pending timers fire and late datagrams arrive
     let until = Instant::now() + Duration::from_millis(350);
+    let mut last_pass_started = now_us();
     while Instant::now() < until {
+        last_pass_started = now_us();
         drain(&driver_socks, &driver_ports);
     }
-    log(json!({"t": now_us(), "who": "driver", "ev": "end-of-observation"}));
+    // "last_drain_started": everything an actor sent before this instant was either picked up
+    // by that complete pass over all driver sockets (or an earlier one) or dropped by the kernel
+    log(json!({"t": now_us(), "who": "driver", "ev": "end-of-observation", "last_drain_started": last_pass_started}));
     let events = LOG.get().unwrap().lock().unwrap().clone();
     println!("{}", json!({"actor_ports": ports, "actor_hosts": hosts, "driver_ports": driver_ports, "salt": salt, "run": run, "events": events}));
     0
@@ -588,16 +592,31 @@ pub fn check_log(v: &Value) -> Result<BTreeMap<&'static str, u64>, (String, Valu
     // datagram of the whole run is, the handler's remaining commands were dropped.
     let mut missed_elsewhere = 0u64;
     let mut handlers_cut_short: Vec<Value> = Vec::new();
-    let observed_until = events.iter().filter(|e| e["ev"] == "end-of-observation").filter_map(|e| e["t"].as_u64()).max().unwrap_or(0);
+    // Decided on logical order, not on elapsed time: the runtime executes all commands of a handler
+    // before it invokes the next handler of the same actor, so a handler is judged only if the same
+    // actor started a later handler before the driver's last complete pass over its sockets began -
+    // then every Send of the judged handler had been attempted before that pass. (A fixed grace
+    // period after the handler's end is not enough on a loaded machine: the runtime thread can be
+    // descheduled between the handler's return and the execution of its commands.)
+    let last_drain_started = events.iter().filter(|e| e["ev"] == "end-of-observation").filter_map(|e| e["last_drain_started"].as_u64()).max().unwrap_or(0);
+    let mut handler_starts: BTreeMap<u64, BTreeSet<u64>> = BTreeMap::new();
+    for e in &events {
+        if e["who"] == "actor" {
+            handler_starts.entry(e["actor"].as_u64().unwrap_or(0)).or_default().insert(e["t"].as_u64().unwrap_or(0));
+        }
+    }
     for e in &events {
         if e["who"] != "actor" {
             continue;
         }
-        // a handler that returned in the last 100 ms of the observation may simply not have had
-        // its datagrams picked up yet
-        if e["t_end"].as_u64().unwrap_or(u64::MAX).saturating_add(100_000) > observed_until {
+        let this_start = e["t_end"].as_u64().unwrap_or(u64::MAX);
+        let next_handler = handler_starts
+            .get(&e["actor"].as_u64().unwrap_or(0))
+            .and_then(|s| s.range(this_start.saturating_add(1)..).next().copied());
+        if !matches!(next_handler, Some(t) if t < last_drain_started) {
             continue;
         }
+        *stats.entry("handlers_judged_for_lost_sends(a_later_handler_of_the_actor_ran_before_the_last_drain)").or_default() += 1;
         let mut failed_before = false;
         let (mut after_fail, mut after_fail_missing) = (0u64, 0u64);
         for c in e["cmds"].as_array().unwrap() {
@@ -728,6 +747,6 @@ pub fn run(ctx: &mut Ctx) {
         "random-choice scheduling of the runtime is observed but not judged (not in the statement)".into(),
     ];
     let ctx = &*ctx;
-    ctx.cases("udp", ctx.n(64, 600), 16, scenario_case);
+    ctx.cases("udp", ctx.n(64, 1600), 16, scenario_case);
     ctx.cases("id", ctx.n(100000, 3000000), 0, id_case);
 }
